@@ -712,6 +712,9 @@ func callMatches(in ssa.Instruction, name string) bool {
 		b, ok := cc.Value.(*ssa.Builtin)
 		return ok && b.Name() == name[len("builtin:"):]
 	}
+	if g, _ := injectedCallee(cc); g != nil {
+		return FnName(g) == name
+	}
 	f := cc.StaticCallee()
 	if f == nil {
 		if m, _ := devirtualise(cc); m != nil && FnName(m) == name {
